@@ -8,8 +8,13 @@ PROP = dict(
              timeout=dict(quick=300, thorough=2400)),
         dict(module="TLSGroup", cfg=dict(quick="TLSGroupEmit_quick.cfg", thorough="TLSGroupEmit_thorough.cfg"), emit=True, workers=8,
              timeout=dict(quick=300, thorough=1800)),
+        # extension: from the tokens of the `tls` directive to the effective crypto/tls configuration
+        # (specs/TLSDirective.tla, notes/TLSDirective.md): invariants + one CASE per file, one job
+        dict(module="TLSDirective", cfg=dict(quick="TLSDirective_quick.cfg", thorough="TLSDirective_thorough.cfg"), emit=True, workers=8,
+             coverage=True, timeout=dict(quick=300, thorough=1200)),
     ],
-    go=[dict(pkg="c06", test="TestC06", timeout=dict(quick=600, thorough=3600))],
+    go=[dict(pkg="c06", test="TestC06", timeout=dict(quick=600, thorough=3600)),
+        dict(pkg="cx06tlsdir", test="TestCx06TLSDir", timeout=dict(quick=300, thorough=1200))],
     exhaustive=dict(quick=False, thorough=False),
     technique="TLA+ spec TLSGroup.tla (MakeTLSConfig, getConfig, negotiation, certificate selection, client authentication, vhost routing, strict SNI as actions; "
               "the statement's clauses as invariants) model-checked by TLC; the per-site-set tables replayed with real TLS handshakes and requests against casket.Start instances",
